@@ -490,6 +490,10 @@ impl AddressLookupServices {
     pub fn add_boxed(&self, service: Box<dyn AddressLookup>) {
         #[cfg(feature = "verif-hooks")]
         crate::verif_hooks::pause("lookup.add.enter");
+        // Take the services lock before reading the last published data: `publish` holds
+        // it (shared) until it has stored its data, so a concurrent publish either already
+        // sees the new service or its data is the one read here.
+        let mut services = self.services.write().expect("poisoned");
         {
             let data = self.last_data.read().expect("poisoned");
             if let Some(data) = &*data {
@@ -498,7 +502,7 @@ impl AddressLookupServices {
         }
         #[cfg(feature = "verif-hooks")]
         crate::verif_hooks::pause("lookup.add.after_read_last");
-        self.services.write().expect("poisoned").push(service);
+        services.push(service);
     }
 
     /// Are there any services configured?
